@@ -274,7 +274,8 @@ def r2_who_writes(facts, rep):
 def r3_invalidate_before_destroy(facts, rep):
     rep.rule("C15-R3", "invalidate before destroy: on every path of open_index's effect summary (helpers followed) the removal of "
                        "the marker file precedes remove_dir_all and Index::create_in_dir, so a crash while the index is being rebuilt "
-                       "can never leave a marker that declares an incomplete index current; (false, index) is returned only on paths "
+                       "can never leave a marker that declares an incomplete index current; the index is created only in a "
+                       "directory that was wiped on that path or seen absent (a damaged index is replaced, not tripped over); (false, index) is returned only on paths "
                        "where the stored version was compared equal to this build's and open_in_dir succeeded, with no mutation")
     if anchor(rep, "C15-R3", facts, "db::open_index") is None:
         return
@@ -286,6 +287,8 @@ def r3_invalidate_before_destroy(facts, rep):
     rep.count("open_index paths", len(outs))
     bad = {}
     n_destroy = 0
+    n_create = 0
+    dirty = []
     n_reuse = 0
     badr = []
     for o in outs:
@@ -300,6 +303,15 @@ def r3_invalidate_before_destroy(facts, rep):
                 inv = [k for k in range(i) if labels[k] == "remove_file" and "config.meta_path" in repr(log[k][1])]
                 if not inv:
                     bad.setdefault(lab, []).append("effects %s" % labels)
+                if lab == "create_in_dir":
+                    # the index is created in a directory that holds no older index: it was wiped on this path, or seen absent
+                    n_create += 1
+                    wiped = "remove_dir_all" in labels[:i]
+                    absent = any(isinstance(p_, _T) and p_.op in ("is_dir", "exists") and "index_path" in repr(p_) and b_ is False
+                                 for p_, b_ in dom.pc(o.store))
+                    if not (wiped or absent):
+                        dirty.append("effects %s with the directory %s" % (labels, "present" if any(
+                            isinstance(p_, _T) and p_.op in ("is_dir", "exists") and b_ is True for p_, b_ in dom.pc(o.store)) else "not looked at"))
         v = o.value
         r = v.field(0) if isinstance(v, _Agg) and v.path == "std::result::Result" and v.vi == 0 else None
         flag = verdict_flag(facts, r) if r is not None else None
@@ -323,6 +335,11 @@ def r3_invalidate_before_destroy(facts, rep):
             rep.ob("C15-R3", "before:%s" % lab, lab not in bad,
                    "%s is %spreceded on every path by the removal of the marker file%s" % (lab, "" if lab not in bad else "NOT ", "" if lab not in bad else ": " + bad[lab][0]),
                    body.site(), sample={"site": lab})
+    if n_create:
+        rep.ob("C15-R3", "create-in-clean-directory", not dirty,
+               "Index::create_in_dir runs only after the old directory was wiped or seen absent (%d path(s))" % n_create if not dirty else
+               "Index::create_in_dir can meet the old index (it fails with 'index already exists' and the start is lost): " + dirty[0],
+               body.site())
     if "panic" in bad:
         rep.ob("C15-R3", "open_index:no-panic", False, bad["panic"][0], body.site())
     rep.floor("C15-R3", "index destruction / re-creation effects on open_index paths", n_destroy, 2)
@@ -498,6 +515,7 @@ def run(fx, rep, tier):
         r4_trust_conditions(facts, sub)
         r5_in_memory(facts, sub)
         r6_session(facts, sub)
+        r7_hash_covers(facts, sub)
         if sub is not rep:
             for o in sub.obls:
                 o["key"] += "[rel]"
@@ -522,7 +540,14 @@ def open_inner_summary(facts, in_memory):
         if name == "config::Config::hash_assets":
             return [(_Sym("hash"), store)]
         if name == "db::open_index":
-            st = dom.with_log(store, ("open_index",))
+            # what open_index is shown: the marker as it was read (it decides from the stored version)
+            seen_meta = None
+            for v_ in vals:
+                if isinstance(v_, _Agg) and v_.path == "config::Config" and "meta" in cfields:
+                    seen_meta = v_.field(cfields.index("meta"))
+                elif isinstance(v_, _Agg) and v_.path == "config::Meta":
+                    seen_meta = v_
+            st = dom.with_log(store, ("open_index", seen_meta) if seen_meta is not None else ("open_index",))
             vd = open_index_verdicts(facts)
             if vd is not None and vd["kind"] == "enum":
                 adt_ = facts.adt(vd["path"])
@@ -600,6 +625,42 @@ def r6_session(facts, rep, rule="C15-R6"):
                        "Ok(db) is returned although %s failed" % [e[1] for e in log if e[0] == "fail"], o.site)
                 continue
             n_ok += 1
+            for e in log:
+                if e[0] == "open_index" and len(e) > 1:
+                    m_ = e[1]
+                    stored = isinstance(m_, _Agg) and all(isinstance(x, _Sym) and x.name.startswith("meta.") for x in m_.fields)
+                    key = "open_index-sees-stored-marker" + ("" if stored else ":%r" % (m_,))
+                    if key not in seen:
+                        seen.add(key)
+                        rep.ob(rule, key[:160], stored,
+                               "open_index decides from the marker as it was read from disk" if stored else
+                               "open_index is shown a marker that was already changed in memory: %r" % (m_,), body.site())
+            # every session that starts serves the sources: they are loaded whenever the assets have a sources file, and
+            # the database handed out holds what was loaded
+            src_absent = any(isinstance(p_, _T) and "get_asset" in repr(p_) and "sources" in repr(p_).lower() and
+                             ((p_.op == "==" and p_.args[-1] == _Const(1) and b_ is False) or
+                              (p_.op == "==" and p_.args[-1] == _Const(0) and b_ is True))
+                             for p_, b_ in dom.pc(o.store))
+            has_src = any(e[0] == "load_sources" for e in log)
+            dbv = v.field(0)
+            dadt = facts.adt("db::Db")
+            held = None
+            if isinstance(dbv, _Agg) and dadt is not None:
+                for fi, f_ in enumerate(dadt["variants"][0]["fields"]):
+                    if f_["ty"] == "db::Sources":
+                        held = dbv.field(fi)
+            holds = held is None or not has_src or "load_bytes" in repr(held)
+            key = "sources-loaded:in_memory=%s" % in_memory
+            good_ = (has_src or src_absent) and holds
+            if not good_:
+                key += ":" + ",".join(e[0] for e in log if e[0] != "load")
+            if key not in seen:
+                seen.add(key)
+                rep.ob(rule, key, (has_src or src_absent) and holds,
+                       "a session that starts has loaded the sources file (or the assets have none) and its database holds them"
+                       if (has_src or src_absent) and holds else
+                       "a session starts with effects %s: sources %s" % ([e[0] for e in log], "loaded but not kept in the database" if has_src else "never loaded"),
+                       body.site())
             labels = [e[0] for e in log if e[0] not in ("load_sources", "reader")]
             core_seq = [l for l in labels if l != "load"]
             built = "writer" in labels
@@ -648,3 +709,68 @@ def r6_session(facts, rep, rule="C15-R6"):
                     seen.add(key)
                     rep.ob(rule, key, good, "asset loads happen between delete_all_documents and commit", body.site())
         rep.ob(rule, "has-ok-path:in_memory=%s" % in_memory, n_ok >= 1, "%d successful path(s)" % n_ok, body.site())
+
+
+# ---- R7: what the marker's hash covers -------------------------------------------------------------------
+
+
+def r7_hash_covers(facts, rep, rule="C15-R7"):
+    rep.rule(rule, "the hash that decides 'written for other data' covers the data: effect summary of Config::hash_assets over "
+                   "two symbolic asset names - this build's version is fed to the hasher, and for every asset that exists its "
+                   "name and its content (digest or bytes, not only a length) are fed too, whatever the name is (no asset is "
+                   "filtered out); the result is the hasher's final value")
+    b = anchor(rep, rule, facts, "config::Config::hash_assets")
+    if b is None:
+        return
+    cfg_adt = facts.adt("config::Config")
+    cfields = [f["name"] for f in cfg_adt["variants"][0]["fields"]]
+    config = _Agg("adt", "config::Config", 0, "Config", [_Sym("config." + f) for f in cfields])
+    names = ("asset0", "asset1")
+
+    def oracle(dom, it, name, args, vals, store):
+        if "Asset" in name and name.endswith("::iter"):
+            return [(_IterV([_Sym(n) for n in names]), store)]
+        if name == "config::Config::assets":
+            return [(_IterV([_Sym(n) for n in names]), store)]
+        if "Asset" in name and name.endswith("::get") or name == "config::Config::get_asset":
+            return [(_T("call:asset-get", *[v for v in vals if not (isinstance(v, _Agg) and v.path == "config::Config")]), store)]
+        return None
+    dom = _EffectDomain({(lambda n: "Hasher" in n and "::write" in n): ("hash-write", "unit"),
+                         (lambda n: "Hasher" in n and "::update" in n): ("hash-write", "unit")}, oracle=oracle)
+    dom.uninterp = lambda n: facts.fn(n) is None or "Asset" in n
+    it = _core.Interp(facts, dom, budget=100000)
+    st, ref = it.fresh_slot({}, config)
+    try:
+        outs = it.run(b, [ref], st)
+    except _core.Undecided as e:
+        rep.ob(rule, "summary", False, "undecided: %s" % e, b.site())
+        return
+    rep.count("hash_assets paths", len(outs))
+    bad = []
+    n_cov = 0
+    for o in outs:
+        if o.kind != "ret":
+            bad.append("hash_assets can end in %s" % o.kind)
+            continue
+        writes = [repr(e[2:]) if len(e) > 2 else "" for e in dom.log(o.store) if e[0] == "hash-write"]
+        pc = dom.pc(o.store)
+        if not any("config.this_version" in w and not w.startswith("(call:core::str::<impl str>::len(") for w in writes):
+            bad.append("this build's version is not fed to the hasher")
+        if "finish" not in repr(o.value):
+            bad.append("the result is %s, not the hasher's final value" % repr(o.value)[:80])
+        for nm in names:
+            absent = any(isinstance(p_, _T) and "asset-get" in repr(p_) and nm in repr(p_) and
+                         ((p_.op == "==" and p_.args[-1] == _Const(1) and b_ is False) or (p_.op == "==" and p_.args[-1] == _Const(0) and b_ is True))
+                         for p_, b_ in pc)
+            if absent:
+                continue
+            w_name = [w for w in writes if nm in w and "asset-get" not in w and not w.startswith("(call:core::slice::<impl [T]>::len(")
+                      and not w.startswith("(call:core::str::<impl str>::len(")]
+            w_data = [w for w in writes if nm in w and "asset-get" in w and not w.startswith("(call:core::slice::<impl [T]>::len(")]
+            if w_name and w_data:
+                n_cov += 1
+            else:
+                bad.append("an asset that exists (%s) is not covered: %s" % (nm, "name not hashed" if not w_name else "content not hashed"))
+    rep.floor(rule, "assets covered on hash_assets paths", n_cov, 2)
+    rep.ob(rule, "hash-covers-version-and-every-asset", not bad, "; ".join(sorted(set(bad))[:3]) if bad else
+           "version, and for every existing asset its name and content, reach the hasher on all %d path(s)" % len(outs), b.site())
